@@ -12,6 +12,7 @@ pub mod util;
 mod c01;
 mod c03;
 mod c04;
+mod c05;
 mod c09;
 mod c11;
 mod c13;
@@ -70,6 +71,7 @@ fn main() {
         "c09_api" => c09::api(thorough),
         "c09_ids" => c09::ids(thorough),
         "c04_apply" => c04::apply(thorough),
+        "c05_runtime" => c05::runtime(thorough),
         "c19_writers" => c19::writers(thorough),
         "c03_env_files" => c03::env_files(thorough),
         "c10_layer_paths" => c03::layer_paths(thorough),
